@@ -76,6 +76,22 @@ fn nd_ok_o<T: Nd<V> + PartialEq>(w: &Opinion<T, V>) -> Out {
     o.finish()
 }
 
+/// fused opinion; `acc = Some(operands accepted)`: three more flags BEFORE `it eq` (operands accepted, the result's simplex
+/// accepted by `Simplex::try_new`, the whole result accepted by `Opinion::try_new`)
+macro_rules! nd_fuse_out {
+    ($T:ty, $acc:expr, $opnd:expr, $w:expr) => {{
+        let w = $w;
+        let mut o = NdObs::new();
+        o.opinion(w);
+        if $acc {
+            o.flag($opnd);
+            o.flag(acc_s!($T, w.simplex));
+            o.flag(acc_o!($T, w.simplex, w.base_rate));
+        }
+        o.finish()
+    }};
+}
+
 fn nd_ok_s<T: Nd<V> + PartialEq>(s: &Simplex<T, V>) -> Out {
     let mut o = NdObs::new();
     o.simplex(s);
@@ -121,7 +137,7 @@ macro_rules! nd_dispatch {
     };
 }
 
-fn op_nd(op: &str, var: &[&str], st: &str, t3: &str, alias: bool, ints: &[i64], sc: &[V]) -> Out {
+fn op_nd(op: &str, var: &[&str], st: &str, t3: &str, alias: bool, acc: bool, ints: &[i64], sc: &[V]) -> Out {
     let mut ch = var[0].chars();
     let (f, rank) = match (ch.next(), ch.next(), ch.next()) {
         (Some(f), Some('2'), None) => (f, 2usize),
@@ -139,10 +155,10 @@ fn op_nd(op: &str, var: &[&str], st: &str, t3: &str, alias: bool, ints: &[i64], 
     need!(ints[0] == n as i64);
     let shape = shape.as_slice();
     match op {
-        "fuse" => nd_fuse(f, shape, n, st, t3, alias, ints, sc),
+        "fuse" => nd_fuse(f, shape, n, st, t3, alias, acc, ints, sc),
         "opinion_new" => nd_opinion_new(f, shape, n, t3, sc),
         "discount" => nd_discount(f, shape, n, st, t3, sc),
-        _ => nd_unary(op, f, shape, n, st, t3, sc),
+        _ => nd_unary(op, f, shape, n, st, t3, acc, sc),
     }
 }
 
@@ -173,7 +189,7 @@ fn nd_opinion_new(f: char, shape: &[usize], n: usize, t3: &str, sc: &[V]) -> Out
     nd_dispatch!(f, shape, body)
 }
 
-fn nd_unary(op: &str, f: char, shape: &[usize], n: usize, st: &str, t3: &str, sc: &[V]) -> Out {
+fn nd_unary(op: &str, f: char, shape: &[usize], n: usize, st: &str, t3: &str, acc: bool, sc: &[V]) -> Out {
     need!(sc.len() == 2 * n + 1);
     macro_rules! body {
         ($T:ty) => {{
@@ -205,6 +221,11 @@ fn nd_unary(op: &str, f: char, shape: &[usize], n: usize, st: &str, t3: &str, sc
                 _ => {
                     let s: Simplex<T, V> = w.simplex.uncertainty_maximized(&w.base_rate);
                     o.simplex(&s);
+                    if acc {
+                        // operand accepted by `Opinion::try_new`, result accepted by `Simplex::try_new` (before `it eq`)
+                        o.flag(acc_o!(T, w.simplex, w.base_rate));
+                        o.flag(acc_s!(T, s));
+                    }
                 }
             }
             o.finish()
@@ -241,7 +262,7 @@ fn nd_discount(f: char, shape: &[usize], n: usize, st: &str, t3: &str, sc: &[V])
     nd_dispatch!(f, shape, body)
 }
 
-fn nd_fuse(f: char, shape: &[usize], n: usize, st: &str, t3: &str, alias: bool, ints: &[i64], sc: &[V]) -> Out {
+fn nd_fuse(f: char, shape: &[usize], n: usize, st: &str, t3: &str, alias: bool, acc: bool, ints: &[i64], sc: &[V]) -> Out {
     let Some(fo) = fuse_op(ints[1]) else { return Out::Unsup };
     let same = match ints[2] {
         0 => false,
@@ -254,16 +275,19 @@ fn nd_fuse(f: char, shape: &[usize], n: usize, st: &str, t3: &str, alias: bool, 
             type T = $T;
             let mut l: Opinion<T, V> = nd_o(&sc[..2 * n + 1]);
             let r: Opinion<T, V> = nd_o(&sc[2 * n + 1..]);
+            let opnd = acc && acc_o!(T, l.simplex, l.base_rate)
+                && (alias
+                    || if same { acc_o!(T, r.simplex, l.base_rate) } else { acc_o!(T, r.simplex, r.base_rate) });
             if alias {
                 return match st {
                     "o" => {
                         let w: Opinion<T, V> = fo.fuse(&l, &l);
-                        nd_ok_o(&w)
+                        nd_fuse_out!(T, acc, opnd, &w)
                     }
                     "r" => {
                         let lr = OpinionRef::from((&l.simplex, &l.base_rate));
                         let w: Opinion<T, V> = fo.fuse(lr.clone(), lr);
-                        nd_ok_o(&w)
+                        nd_fuse_out!(T, acc, opnd, &w)
                     }
                     _ => Out::Unsup,
                 };
@@ -271,25 +295,25 @@ fn nd_fuse(f: char, shape: &[usize], n: usize, st: &str, t3: &str, alias: bool, 
             match (t3, st, same) {
                 ("", "o", false) => {
                     let w: Opinion<T, V> = fo.fuse(&l, &r);
-                    nd_ok_o(&w)
+                    nd_fuse_out!(T, acc, opnd, &w)
                 }
                 ("", "r", false) => {
                     let w: Opinion<T, V> = fo.fuse(l.as_ref(), r.as_ref());
-                    nd_ok_o(&w)
+                    nd_fuse_out!(T, acc, opnd, &w)
                 }
                 ("", "r", true) => {
                     let a: T = l.base_rate.clone();
                     let w: Opinion<T, V> =
                         fo.fuse(OpinionRef::from((&l.simplex, &a)), OpinionRef::from((&r.simplex, &a)));
-                    nd_ok_o(&w)
+                    nd_fuse_out!(T, acc, opnd, &w)
                 }
                 ("asg", "o", false) => {
                     fo.fuse_assign(&mut l, &r);
-                    nd_ok_o(&l)
+                    nd_fuse_out!(T, acc, opnd, &l)
                 }
                 ("asg", "r", false) => {
                     fo.fuse_assign(&mut l, r.as_ref());
-                    nd_ok_o(&l)
+                    nd_fuse_out!(T, acc, opnd, &l)
                 }
                 _ => Out::Unsup,
             }
